@@ -121,8 +121,40 @@ def sx_repr(x):
 _HASH = z3.Function("py_hash", z3.IntSort(), z3.IntSort(), z3.IntSort())
 
 
+_HINT = z3.Function("py_hash_int", z3.IntSort(), z3.IntSort())
+_HCOMB = z3.Function("py_hash_combine", z3.IntSort(), z3.IntSort(), z3.IntSort())
+
+
+def _hash_term(x):
+    """hash of x as a z3 Int term (uninterpreted functions over structure), or a Python int
+    when nothing symbolic is involved"""
+    if isinstance(x, SymInt):
+        e = z3.simplify(x.e)
+        return hash(e.as_long()) if z3.is_int_value(e) else _HINT(e)
+    if isinstance(x, SymBool):
+        return _hash_term(x._int())
+    if isinstance(x, Sym):
+        raise EngineLimit("hash of a symbolic float")
+    if isinstance(x, tuple):
+        items = [_hash_term(i) for i in x]
+        if all(type(i) is int for i in items):
+            return hash(x)
+        acc = z3.IntVal(len(x))
+        for it in items:
+            acc = _HCOMB(acc, it if isinstance(it, z3.ExprRef) else z3.IntVal(it))
+        return acc
+    h = getattr(type(x), "__hash__", None)
+    mod = getattr(h, "__module__", "") or ""
+    if h is not None and mod.startswith("term_image"):
+        r = h(x)  # a lifted __hash__: may return a symbolic int
+        return r.e if isinstance(r, SymInt) else r
+    return hash(x)
+
+
 def sx_hash(x):
-    if _active() and isinstance(x, tuple) and len(x) == 2 and all(core._num(i) is not None for i in x):
+    if not _active():
+        return hash(x)
+    if isinstance(x, tuple) and len(x) == 2 and all(core._num(i) is not None for i in x):
         # hash of a size tuple: an uninterpreted function, injective on the pairs hashed on this path
         # (assumption recorded by the harnesses that rely on it)
         E = core.eng()
@@ -132,7 +164,8 @@ def sx_hash(x):
             E._add(z3.Implies(_HASH(a, b) == _HASH(c, d), z3.And(a == c, b == d)))
         apps.append((a, b))
         return SymInt(_HASH(a, b))
-    return hash(x)
+    t = _hash_term(x)
+    return SymInt(t) if isinstance(t, z3.ExprRef) else t
 
 
 def sx_range(*args):
